@@ -1,1 +1,133 @@
-//! (module owned by one property family; see AGENT_GUIDE.md)
+//! Thin wrapper over the `luars` crate (pure-Rust Lua 5.5): compile-only acceptor and bounded
+//! execution with a registered Rust probe callback. Owned by the C13/C15/C41 family; other
+//! families may call `compile_only`.
+//!
+//! * `compile_only(src)`   – Ok(()) when luars compiles the chunk (nothing is executed).
+//! * `run_probed(src, n)`  – executes the chunk in a fresh VM inside a sandbox environment with
+//!   an *instruction* budget `n` (deterministic; no wall clock). The global `__probe(k, x)` is a
+//!   Rust callback that records `(k, type(x), integer value, truthiness)` and returns `x`, so it
+//!   can be used both as a statement and as an expression wrapper.
+//!
+//! No stdout/stderr is produced by executed programs: `print` and `warn` are replaced by no-ops.
+
+use luars::{Lua, LuaApi, LuaSandboxApi, LuaStackApi, SafeOption, SandboxConfig, Stdlib};
+use std::cell::RefCell;
+use std::rc::Rc;
+
+#[derive(Clone, Debug, PartialEq)]
+pub struct ProbeEvent {
+    /// first argument of `__probe` (probe / use identifier)
+    pub k: i64,
+    /// Lua `type(x)` of the second argument: nil boolean number string table function userdata thread
+    pub ty: &'static str,
+    /// the integer value when `x` is an integer (math.type(x) == "integer")
+    pub int: Option<i64>,
+    /// Lua truthiness of `x`
+    pub truthy: bool,
+}
+
+#[derive(Clone, Debug, PartialEq)]
+pub enum Outcome {
+    /// chunk ran to completion
+    Finished,
+    /// luars rejected the chunk; nothing was executed
+    CompileError(String),
+    /// a Lua runtime error stopped the chunk (events recorded before it are valid)
+    RuntimeError(String),
+    /// the instruction budget was exhausted (events recorded before it are valid)
+    StepLimit,
+}
+
+#[derive(Clone, Debug)]
+pub struct RunResult {
+    pub outcome: Outcome,
+    pub events: Vec<ProbeEvent>,
+}
+
+fn static_type_name(s: &str) -> &'static str {
+    match s {
+        "nil" => "nil",
+        "boolean" => "boolean",
+        "number" => "number",
+        "string" => "string",
+        "table" => "table",
+        "function" => "function",
+        "userdata" => "userdata",
+        "thread" => "thread",
+        _ => "other",
+    }
+}
+
+/// Compile `src` with luars (Lua 5.5 grammar). Nothing is executed.
+pub fn compile_only(src: &str) -> Result<(), String> {
+    let mut vm = Lua::new(SafeOption::default());
+    match vm.global_state_mut().compile(src) {
+        Ok(_) => Ok(()),
+        Err(msg) => Err(msg.to_string()),
+    }
+}
+
+/// Default instruction budget: generated programs need a few hundred instructions.
+pub const DEFAULT_STEPS: u64 = 200_000;
+
+/// Execute `src` with `__probe` registered. `max_steps` bounds VM instructions (deterministic).
+/// At most `max_events` probe events are kept (later ones are dropped, the count is not a verdict).
+pub fn run_probed(src: &str, max_steps: u64) -> RunResult {
+    let sink: Rc<RefCell<Vec<ProbeEvent>>> = Rc::new(RefCell::new(Vec::new()));
+    let mut vm = Lua::new(SafeOption::default());
+    if let Err(e) = vm.open_stdlib(Stdlib::All) {
+        return RunResult { outcome: Outcome::RuntimeError(format!("open_stdlib: {e:?}")), events: vec![] };
+    }
+    let s2 = sink.clone();
+    let reg = vm.global_state_mut().register_function("__probe", move |state| {
+        let k = state.lua_tointegerx(1).unwrap_or(-1);
+        let ty = static_type_name(state.lua_typename(2).unwrap_or("nil"));
+        let int = if ty == "number" && state.lua_isinteger(2) { state.lua_tointegerx(2) } else { None };
+        let truthy = state.lua_toboolean(2);
+        let mut v = s2.borrow_mut();
+        if v.len() < 100_000 {
+            v.push(ProbeEvent { k, ty, int, truthy });
+        }
+        drop(v);
+        // return x
+        if state.lua_gettop() >= 2 {
+            state.lua_pushvalue(2)?;
+        } else {
+            state.lua_pushnil()?;
+        }
+        Ok(1)
+    });
+    if let Err(e) = reg {
+        return RunResult { outcome: Outcome::RuntimeError(format!("register: {e:?}")), events: vec![] };
+    }
+    let _ = vm.global_state_mut().register_function("__noop", |_state| Ok(0));
+    let mut config = SandboxConfig::default().with_instruction_limit(max_steps);
+    for (as_name, from) in [("__probe", "__probe"), ("print", "__noop"), ("warn", "__noop")] {
+        if let Ok(Some(v)) = vm.global_state_mut().get_global(from) {
+            config.insert_global(as_name, v);
+        }
+    }
+    // compile first so that compile errors are reported as such
+    if let Err(msg) = vm.global_state_mut().compile(src) {
+        return RunResult { outcome: Outcome::CompileError(msg.to_string()), events: vec![] };
+    }
+    let res = vm.execute_sandboxed(src, &config);
+    let outcome = match res {
+        Ok(_) => Outcome::Finished,
+        Err(e) => {
+            let full = vm.get_error_message(e);
+            if full.message.contains("sandbox instruction limit exceeded") {
+                Outcome::StepLimit
+            } else {
+                Outcome::RuntimeError(first_line(&full.message))
+            }
+        }
+    };
+    drop(vm);
+    let events = std::mem::take(&mut *sink.borrow_mut());
+    RunResult { outcome, events }
+}
+
+fn first_line(s: &str) -> String {
+    s.lines().next().unwrap_or("").to_string()
+}
